@@ -17,6 +17,8 @@ Allow(d) == IF d * 3 > 1500 THEN (d * 3) \div 10 ELSE 150        \* max(150 ms, 
 Garbage == B(<<6, 0, 255, 7, 6, 0, 1, 2>>)
 IsPt(p) == Eq(Slice(Req, 5, 6), B(<<p>>))
 InSess == Eq(Slice(Req, 5, 6), B(<<192>>))
+\* decrypted in-session request: NetFn Storage (0Ah << 2) and the command number
+IsStorage(c) == And(<< Eq(Slice(Ref("ReqPlainT"), 1, 2), B(<<40>>)), Eq(Slice(Ref("ReqPlainT"), 5, 6), B(<<c>>)) >>)
 Rule(name, when, dgs) == [rule |-> name, when |-> when, datagrams |-> dgs]
 Now(t) == << Dg(t, [kind |-> "reply"]) >>
 NowValid(t, cc) == << Dg(t, [kind |-> "reply", valid |-> TRUE, code |-> cc]) >>
@@ -32,6 +34,8 @@ NullReply(netfnRsp, cmd, cc, data) == NullWrapper(0, B(MsgRspBytes(129, netfnRsp
 \* fault -> the datagrams the BMC answers the faulty step with
 Faulty(f, goodT, busyT) == CASE f = "blackhole" -> <<>> [] f = "late" -> Late(goodT) [] f = "garbage" -> Now(Garbage) [] f = "temp" -> NowValid(busyT, 192)
                              [] f = "trunc" -> Now(Trunc(goodT, 21))
+                             \* a well-formed, prompt refusal: Open Session Response with status 01h (insufficient resources)
+                             [] f = "status01" -> Now(SetByte(goodT, 17, 1))
 TimedCall(call, d, mustErr) == call @@ [ctx |-> [ms |-> d], exp |-> [prop |-> "C13", outcome |-> "timed", deadlineMs |-> d, allowMs |-> Allow(d), mustErr |-> mustErr]]
 Expired(call) == call @@ [ctx |-> [ms |-> 5000, expired |-> TRUE], exp |-> [prop |-> "C13", outcome |-> "timed", deadlineMs |-> 0, allowMs |-> 150, mustErr |-> TRUE]]
 RawCall(tg) == [k |-> "call", api |-> "Raw", label |-> "raw", target |-> tg, args |-> [netfn |-> 10, cmd |-> 16, lun |-> 0, body |-> <<1>>]]
@@ -46,6 +50,21 @@ Script(id, kind, f, r, rules, steps) ==
 
 \* which faults leave no way to obtain a valid response
 MustErr(f) == f # "late"
+\* ---- C10 over real time: busy, busy, then the answer, each prompt; the library's own back-off between the attempts makes
+\* the command last longer than one per-attempt timeout, and it must still return the final answer
+BusyThenOk(id, insess, nBusy, r) ==
+  LET good == IF insess THEN InSessReply(11, 16, 0, <<5>>) ELSE NullReply(11, 16, 0, <<5>>)
+      busy == IF insess THEN InSessReply(11, 16, 192, <<>>) ELSE NullReply(11, 16, 192, <<>>)
+      when == IF insess THEN <<InSess>> ELSE <<IsPt(0)>>
+      rules == (IF insess THEN Handshake ELSE <<>>) \o
+               << [rule |-> "busy", when |-> when, ifstate |-> [name |-> "b", lt |-> nBusy], effects |-> << [k |-> "inc", name |-> "b"] >>, datagrams |-> NowValid(busy, 192)],
+                  [rule |-> "answer", when |-> when, datagrams |-> NowValid(good, 0)] >>
+      call == RawCall(IF insess THEN "sess" ELSE "conn") @@ [ctx |-> [ms |-> r[1]],
+                exp |-> [prop |-> "C10", outcome |-> "timed", deadlineMs |-> r[1], allowMs |-> Allow(r[1]), mustErr |-> FALSE, mustOk |-> TRUE]]
+      b == Script(id, "busy-then-ok", "temp", r, rules, (IF insess THEN << Quiet(OpenCall) >> ELSE <<>>) \o << call >>)
+  IN [b EXCEPT !.steps = << [k |-> "rules", rules |-> rules, state |-> [b |-> 0]] >> \o Tail(@)]
+RetryTimeScripts == { BusyThenOk("bto-" \o (IF s THEN "s" ELSE "n") \o "-" \o ToString(n) \o "-" \o ToString(r[2]), s, n, r)
+                      : s \in BOOLEAN, n \in {1, 2}, r \in {<<6000, 300>>, <<6000, 150>>} }
 Sessionless(f, r) == Script("sl-" \o f \o "-" \o ToString(r[1]) \o "-" \o ToString(r[2]), "sessionless", f, r,
                             << Rule("cmd", <<IsPt(0)>>, Faulty(f, NullReply(11, 16, 0, <<5>>), NullReply(11, 16, 192, <<>>))) >>,
                             << TimedCall(RawCall("conn"), r[1], MustErr(f)) >>)
@@ -106,13 +125,26 @@ Histories ==
                     << AliveQuiet(OpenCall), TimedCall(SdrCall, r[1], TRUE) >>) }
           : f \in {"blackhole", "garbage", "temp"} }
 AllFaults == {"blackhole", "late", "garbage", "temp"}
-Scripts == IF Family = "metrics" THEN MetricScripts ELSE
+\* ---- C13: legal answers that keep a composite call going until the deadline
+\* every Get SDR Repository Info reports a newer addition time stamp: each walk ends "modified", the outer retry sleeps
+SdrModifiedForever(r) ==
+  LET info == DynMsgRsp(11, 32, 0, Cat(<< B(<<81, 1, 0, 255, 255>>), State16("t"), B(<<0, 0>>), B(<<10, 0, 0, 0>>), B(<<34>>) >>))
+      rules == Handshake \o
+        << [rule |-> "info", when |-> <<InSess, IsStorage(32)>>, effects |-> << [k |-> "inc", name |-> "t"] >>, datagrams |-> Now(DynSessPacket(S, <<1, 0, 0, 0>>, info, [i \in 1..16 |-> i]))],
+           [rule |-> "reserve", when |-> <<InSess, IsStorage(34)>>, datagrams |-> Now(InSessReply(11, 34, 0, <<7, 0>>))],
+           \* one compact sensor record (type 02h), then the end of the repository
+           [rule |-> "getsdr", when |-> <<InSess, IsStorage(35)>>, datagrams |-> Now(InSessReply(11, 35, 0, <<255, 255, 1, 0, 81, 2, 10>>))] >>
+      b == Script("sdr-modified-" \o ToString(r[1]) \o "-" \o ToString(r[2]), "sdr", "modified", r, rules, << Quiet(OpenCall), TimedCall(SdrCall, r[1], TRUE) >>)
+  IN [b EXCEPT !.steps = << [k |-> "rules", rules |-> rules, state |-> [t |-> 100]] >> \o Tail(@)]
+Scripts == IF Family = "metrics" THEN MetricScripts ELSE IF Family = "retrytime" THEN RetryTimeScripts ELSE
   LET rs == IF Full \/ Family = "all" THEN Ratios ELSE {r \in Ratios : TRUE} IN
   UNION { { Sessionless(f, r), InSession(f, r), Close(f, r) } : f \in AllFaults, r \in rs }
   \cup { HandshakeLeg(f, leg, r) : f \in AllFaults \cup {"trunc"}, leg \in 1..3, r \in (IF Full THEN rs ELSE {<<250, 1000>>, <<900, 300>>}) }
   \cup { Sdr(f, r) : f \in {"blackhole", "late", "garbage", "temp", "permanent"}, r \in (IF Full THEN rs ELSE {<<250, 1000>>, <<900, 300>>}) }
   \cup ExpiredScripts \cup SdrShort \cup Histories
-Header == [header |-> TRUE, family |-> "timing", defs |-> SessionDefs(S), stable |-> <<"SIK", "K1", "K2">>]
+  \cup { HandshakeLeg("status01", 1, r) : r \in {<<250, 1000>>, <<400, 400>>, <<900, 300>>} }
+  \cup { SdrModifiedForever(r) : r \in {<<100, 300>>, <<400, 400>>, <<900, 300>>} }
+Header == [header |-> TRUE, family |-> "timing", defs |-> SessionDefs(S) @@ [ReqPlainT |-> ReqPlain(S)], stable |-> <<"SIK", "K1", "K2">>]
 ASSUME PrintT(<<"HEADER", ToJson(Header)>>)
 ASSUME \A s \in Scripts : PrintT(<<"SCRIPT", ToJson(s)>>)
 ASSUME PrintT(<<"COUNT", ToJson([n |-> Cardinality(Scripts)])>>)
